@@ -207,6 +207,8 @@ type zc33Thread struct {
 	parked chan string
 	done   bool
 	err    error
+	url    string   // what Upload returned
+	sent   []string // object keys of the PUT requests this thread handed to the HTTP client
 }
 
 func (c *zc33Ctl) point(name string) {
@@ -218,11 +220,11 @@ func (c *zc33Ctl) point(name string) {
 	<-t.resume
 }
 
-func (c *zc33Ctl) spawn(run func() error) *zc33Thread {
+func (c *zc33Ctl) spawn(run func() (string, error)) *zc33Thread {
 	t := &zc33Thread{resume: make(chan struct{}), parked: make(chan string)}
 	go func() {
 		<-t.resume
-		t.err = run()
+		t.url, t.err = run()
 		t.parked <- "done"
 	}()
 	return t
@@ -246,6 +248,9 @@ type zc33HTTP struct {
 }
 
 func (h zc33HTTP) Do(r *http.Request) (*http.Response, error) {
+	if t := h.ctl.cur; t != nil && r.Method == http.MethodPut {
+		t.sent = append(t.sent, strings.TrimPrefix(r.URL.Path, "/bkt/"))
+	}
 	h.ctl.point("serialized")
 	return h.inner.Do(r)
 }
@@ -479,12 +484,20 @@ func TestVerif_C33_S3(t *testing.T) {
 			}
 		}
 		// two overlapping uploads
+		// the two overlapping uploads go through the two handles, or both through the SAME handle
+		sameHandle := x.Bool("both overlapping uploads use the same handle")
+		handleMode := "two-handles"
+		if sameHandle {
+			handleMode = "same-handle"
+		}
 		threads := [2]*zc33Thread{}
 		for h := range threads {
-			h := h
-			threads[h] = ctl.spawn(func() error {
-				_, err := handles[h].Upload([]byte("same-payload"), nil, "")
-				return err
+			st := handles[h]
+			if sameHandle {
+				st = handles[0]
+			}
+			threads[h] = ctl.spawn(func() (string, error) {
+				return st.Upload([]byte("same-payload"), nil, "")
 			})
 		}
 		var sched []string
@@ -530,7 +543,42 @@ func TestVerif_C33_S3(t *testing.T) {
 				"history %v, then two uploads overlapped with schedule %v: PUT #%d and PUT #%d received by the store carry the same object key %q (the later one overwrote the earlier one)",
 				hist, sched, i, j, pu.Key)
 		}
-		x.Outcome("faults hist=%v written=%d upload-errors=%d collisions=%d", hist, len(fake.puts), errs, collisions)
+		// Each successful Upload hands its caller a URL; the object it names must be the object THAT
+		// upload wrote (otherwise the caller reads another call's payload: from where the caller
+		// stands its key was reused), and no two uploads may be handed the same key.
+		mismatches := 0
+		handed := map[string]int{}
+		for h, th := range threads {
+			if th.err != nil {
+				continue
+			}
+			pu, perr := url.Parse(th.url)
+			if perr != nil {
+				continue
+			}
+			got := strings.TrimPrefix(pu.Path, "/bkt/")
+			own := false
+			for _, k := range th.sent {
+				own = own || k == got
+			}
+			class := "no-refusal-in-this-execution"
+			if anyRefused {
+				class = "after-a-refused-upload"
+			}
+			if !own {
+				mismatches++
+				x.Failf("C33:s3:returned-key-is-not-the-written-key:overlapping-uploads:"+handleMode+":"+class,
+					"history %v, two uploads (%s) overlapped with schedule %v: overlapping upload %d wrote object key(s) %v but returned a URL for %q",
+					hist, handleMode, sched, h, th.sent, got)
+			}
+			if o, dup := handed[got]; dup {
+				x.Failf("C33:s3:key-reused:returned-to-two-uploads:overlapping-uploads:"+handleMode+":"+class,
+					"history %v, two uploads (%s) overlapped with schedule %v: overlapping uploads %d and %d were both handed object key %q",
+					hist, handleMode, sched, o, h, got)
+			}
+			handed[got] = h
+		}
+		x.Outcome("faults hist=%v written=%d upload-errors=%d collisions=%d returned-key-mismatches=%d", hist, len(fake.puts), errs, collisions, mismatches)
 	}
 	venum.Explore(t, venum.Cfg{Name: "s3-store-faults-overlapping-uploads", CheckDeterminism: true},
 		func(x *venum.X) { faultBody(x, venum.QT(1, 3)) })
